@@ -332,5 +332,10 @@ def r7_notify(ctx):
     ctx.ob("C19.R7", "dropped-waiter-leaves-queue", bool(dk), "dropping an un-notified Notified removes its waiter from the queue", loc=dk[0].loc() if dk else None)
 
 
-RULES = [("C19.R7", r7_notify), ("C19.R1", r1_receive_paths), ("C19.R2", r2_send_path), ("C19.R3", r3_fairness), ("C19.R4", r4_guards),
+def r8_fresh_waker(ctx):
+    from rules.c17 import fresh_waker_rule
+    fresh_waker_rule(ctx, "C19.R8", {"shuttle_tokio_impl_inner"}, 1)
+
+
+RULES = [("C19.R8", r8_fresh_waker), ("C19.R7", r7_notify), ("C19.R1", r1_receive_paths), ("C19.R2", r2_send_path), ("C19.R3", r3_fairness), ("C19.R4", r4_guards),
          ("C19.R5", r5_close), ("C19.R6", r6_delegation)]
